@@ -1,1 +1,240 @@
+(* C16 — lemmas.  Part A: structural facts about the wrappers and classes, for every carrier
+   (no axioms).  Part B (ProofsR.v): the kernels at the real carrier KR. *)
 From V Require Import Common.NumFacts C16.Model.
+From Coq Require Import Lia.
+
+Section Generic.
+Context {A I : Type} (K : KOps A).
+
+(* ---------- lists ---------- *)
+Lemma upd_len {B} (l : list B) i v : length (upd l i v) = length l.
+Proof. revert i; induction l as [|h t IH]; intros [|i]; simpl; auto. Qed.
+
+Lemma nth_upd_neq {B} (l : list B) i j v d : i <> j -> nth j (upd l i v) d = nth j l d.
+Proof.
+  revert i j; induction l as [|h t IH]; intros [|i] [|j] Hne; simpl; auto; try congruence.
+Qed.
+
+Lemma nth_upd_eq {B} (l : list B) i v d : (i < length l)%nat -> nth i (upd l i v) d = v.
+Proof.
+  revert i; induction l as [|h t IH]; intros [|i] Hl; simpl in *; auto; try lia. apply IH; lia.
+Qed.
+
+Lemma map_snd_combine {B C} (a : list B) (b : list C) :
+  length a = length b -> map snd (combine a b) = b.
+Proof.
+  revert b; induction a as [|h t IH]; intros [|h' t'] L; simpl in *; try discriminate; auto.
+  f_equal. apply IH. lia.
+Qed.
+
+Lemma in_enum_snd {B} (l : list B) i b : In (i, b) (enum l) -> In b l.
+Proof. unfold enum. intros H. eapply in_combine_r; eauto. Qed.
+
+(* ---------- gather loop ---------- *)
+Lemma gather_into_sub_keeps_x (l : list (nat * nat)) (x xs : list A) :
+  fst (fold_left (gather_step K GatherIntoSub) l (x, xs)) = x.
+Proof.
+  revert x xs; induction l as [|[i j] t IH]; intros x xs; simpl; auto.
+Qed.
+
+Lemma gather_loop_keeps_x index (x xs : list A) :
+  fst (gather_loop K GatherIntoSub index x xs) = x.
+Proof. unfold gather_loop. apply gather_into_sub_keeps_x. Qed.
+
+(* x_sub after the gather loop is the sub-composition: entry i is x[index[i]] *)
+Lemma gather_fold_sub (l : list (nat * nat)) (x xs : list A) i d :
+  NoDup (map fst l) ->
+  nth i (snd (fold_left (gather_step K GatherIntoSub) l (x, xs))) d =
+  match find (fun ij => Nat.eqb (fst ij) i) l with
+  | Some ij => if (i <? length xs)%nat then nth (snd ij) x (kzero K) else nth i xs d
+  | None => nth i xs d
+  end.
+Proof.
+  revert xs; induction l as [|[a b] t IH]; intros xs ND; simpl; auto.
+  inversion ND as [|? ? Hnotin ND']; subst.
+  rewrite IH by assumption. rewrite upd_len.
+  destruct (Nat.eqb a i) eqn:E.
+  - apply Nat.eqb_eq in E; subst a.
+    assert (Hf : find (fun ij : nat * nat => Nat.eqb (fst ij) i) t = None).
+    { destruct (find _ t) as [[a' b']|] eqn:F; auto. apply find_some in F. destruct F as [Fin Fe].
+      simpl in Fe. apply Nat.eqb_eq in Fe; subst. exfalso. apply Hnotin.
+      change i with (fst (i, b')). apply in_map. exact Fin. }
+    rewrite Hf. destruct (i <? length xs)%nat eqn:L.
+    + apply Nat.ltb_lt in L. apply nth_upd_eq; auto.
+    + apply Nat.ltb_ge in L. rewrite nth_overflow by (rewrite upd_len; lia).
+      rewrite nth_overflow by lia. reflexivity.
+  - apply Nat.eqb_neq in E.
+    destruct (find _ t) as [[a' b']|]; [destruct (i <? length xs)%nat|]; auto; apply nth_upd_neq; auto.
+Qed.
+
+(* ---------- scatter loop ---------- *)
+Lemma scatter_fold_other (gs : list A) (l : list (nat * nat)) (g : list A) j d :
+  (forall ij, In ij l -> snd ij <> j) ->
+  nth j (fold_left (scatter_step K gs) l g) d = nth j g d.
+Proof.
+  revert g; induction l as [|ij t IH]; intros g H; simpl; auto.
+  rewrite IH by (intros; apply H; right; auto).
+  unfold scatter_step. apply nth_upd_neq. apply H. left; auto.
+Qed.
+
+Lemma scatter_other index (gs g : list A) j d :
+  ~ In j index -> nth j (scatter K index gs g) d = nth j g d.
+Proof.
+  intros Hn. unfold scatter. apply scatter_fold_other.
+  intros [i b] Hin Heq. simpl in Heq; subst. apply Hn. eapply in_enum_snd; eauto.
+Qed.
+
+Lemma scatter_fold_len (gs : list A) l g : length (fold_left (scatter_step K gs) l g) = length g.
+Proof. revert g; induction l as [|ij t IH]; intros g; simpl; auto. rewrite IH. apply upd_len. Qed.
+
+Lemma scatter_len index (gs g : list A) : length (scatter K index gs g) = length g.
+Proof. apply scatter_fold_len. Qed.
+
+(* a position written by the scatter loop (indices distinct) receives gamma_sub[i] *)
+Lemma scatter_fold_hit (gs : list A) (l : list (nat * nat)) (g : list A) i j d :
+  NoDup (map snd l) -> In (i, j) l -> (j < length g)%nat ->
+  nth j (fold_left (scatter_step K gs) l g) d = nth i gs (kzero K).
+Proof.
+  revert g; induction l as [|[a b] t IH]; intros g ND Hin Hj; simpl in *; [contradiction|].
+  inversion ND as [|? ? Hnotin ND']; subst.
+  destruct Hin as [E|Hin].
+  - inversion E; subst. rewrite scatter_fold_other.
+    + unfold scatter_step; simpl. apply nth_upd_eq; auto.
+    + intros [a' b'] Hin' Heq. simpl in Heq; subst. apply Hnotin.
+      change j with (snd (a', j)). apply in_map; auto.
+  - apply IH; auto. unfold scatter_step. rewrite upd_len. auto.
+Qed.
+
+Lemma nth_ones n j : nth j (ones K n) (kone K) = kone K.
+Proof. unfold ones. revert j; induction n; intros [|j]; simpl; auto. Qed.
+
+(* ---------- the wrapper ---------- *)
+Section W.
+Variables (sp : scatterpos) (psi : A -> I -> list (list A))
+          (lgc : list A -> list A -> list A -> list A)
+          (gac : list A -> list (list A) -> list A -> list A -> list (list A) -> list (list A) ->
+                 list (list A) -> list A).
+
+(* the caller's composition array is returned as it was passed *)
+Lemma wrapper_x_untouched x T inter gpsis mask qs rs Qs cg cQfs index w :
+  wrapper K GatherIntoSub sp psi lgc gac x T inter gpsis mask qs rs Qs cg cQfs index = Ok w ->
+  w_x w = x.
+Proof.
+  unfold wrapper. intros H.
+  destruct (1 <? length index)%nat; [|inversion H; reflexivity].
+  pose proof (gather_loop_keeps_x index x (ones K (length index))) as G.
+  destruct (gather_loop K GatherIntoSub index x (ones K (length index))) as [x1 xs1]. simpl in G.
+  destruct (negb _).
+  - inversion H; subst; reflexivity.
+  - destruct sp; inversion H; subst; reflexivity.
+Qed.
+
+(* with the scatter loop under `if xsum` the wrapper always returns *)
+Lemma wrapper_total d x T inter gpsis mask qs rs Qs cg cQfs index :
+  exists w, wrapper K d ScatterInside psi lgc gac x T inter gpsis mask qs rs Qs cg cQfs index = Ok w.
+Proof.
+  unfold wrapper.
+  destruct (1 <? length index)%nat; [|eexists; reflexivity].
+  destruct (gather_loop K d index x (ones K (length index))) as [x1 xs1].
+  destruct (negb _); eexists; reflexivity.
+Qed.
+
+(* a chemical that is not in `index` (no group data) gets exactly one; result has the length of x *)
+Lemma wrapper_no_group_is_one d x T inter gpsis mask qs rs Qs cg cQfs index w j :
+  wrapper K d sp psi lgc gac x T inter gpsis mask qs rs Qs cg cQfs index = Ok w ->
+  ~ In j index ->
+  length (w_gamma w) = length x /\ nth j (w_gamma w) (kone K) = kone K.
+Proof.
+  unfold wrapper. intros H Hn.
+  assert (L1 : length (ones K (length x)) = length x) by (unfold ones; apply repeat_length).
+  destruct (1 <? length index)%nat.
+  2:{ inversion H; subst; simpl. split; [exact L1|apply nth_ones]. }
+  destruct (gather_loop K d index x (ones K (length index))) as [x1 xs1].
+  destruct (negb _).
+  - inversion H; subst; simpl. split.
+    + rewrite scatter_len. exact L1.
+    + rewrite scatter_other by assumption. apply nth_ones.
+  - destruct sp; inversion H; subst; simpl. split; [exact L1|apply nth_ones].
+Qed.
+
+(* the value scattered to a chemical with groups is the kernel's value for its row *)
+Lemma wrapper_group_value x T inter gpsis mask qs rs Qs cg cQfs index w i j :
+  wrapper K GatherIntoSub sp psi lgc gac x T inter gpsis mask qs rs Qs cg cQfs index = Ok w ->
+  (1 < length index)%nat -> NoDup index -> nth_error index i = Some j -> (j < length x)%nat ->
+  let x_sub := snd (gather_loop K GatherIntoSub index x (ones K (length index))) in
+  let xsum := ksum K x_sub in
+  keqb K xsum (kzero K) = false ->
+  let xn := bc_10 (kdiv K) x_sub xsum in
+  let psis := psi T inter in
+  nth j (w_gamma w) (kone K) =
+  nth i (gac xn cg (lgc qs rs xn) Qs psis cQfs (fill_group_psis K psis mask)) (kzero K).
+Proof.
+  intros H L ND Hi Hj x_sub xsum Hz xn psis. unfold wrapper in H.
+  apply Nat.ltb_lt in L. rewrite L in H.
+  subst x_sub xsum xn.
+  destruct (gather_loop K GatherIntoSub index x (ones K (length index))) as [x1 xs1]. simpl in *.
+  rewrite Hz in H. simpl in H. inversion H; subst; simpl.
+  unfold scatter. apply scatter_fold_hit.
+  - unfold enum. rewrite map_snd_combine; [exact ND|]. rewrite seq_length; reflexivity.
+  - unfold enum. clear - Hi.
+    assert (G : forall k, In (k + i, j)%nat (combine (seq k (length index)) index)).
+    { revert i Hi. induction index as [|h t IH]; intros [|i] Hi k; simpl in *; try discriminate.
+      - inversion Hi; subst. left. f_equal. lia.
+      - right. replace (k + S i)%nat with (S k + i)%nat by lia. apply IH. exact Hi. }
+    apply (G 0%nat).
+  - unfold ones. rewrite repeat_length. exact Hj.
+Qed.
+End W.
+
+(* ---------- __call__ and .f ---------- *)
+Lemma call_eq_f (f : wfun (A:=A) (I:=I)) x T a c :
+  call f x T a = Ok c ->
+  exists w, f_apply f (xval x) T a = Ok w /\ c_gamma c = w_gamma w /\ c_gpsis c = w_gpsis w.
+Proof.
+  unfold call. destruct (f_apply f (xval x) T a) as [w|e]; simpl; intros H; inversion H; subst.
+  exists w. auto.
+Qed.
+
+Lemma f_eq_call (f : wfun (A:=A) (I:=I)) x T a w :
+  f_apply f (xval x) T a = Ok w -> exists c, call f x T a = Ok c /\ c_gamma c = w_gamma w.
+Proof. unfold call. intros ->. simpl. eexists; split; reflexivity. Qed.
+
+Lemma call_err_iff (f : wfun (A:=A) (I:=I)) x T a e :
+  call f x T a = Err e <-> f_apply f (xval x) T a = Err e.
+Proof. unfold call. destruct (f_apply f (xval x) T a); simpl; split; intros H; inversion H; auto. Qed.
+
+(* the caller's object after Gamma(x, T): untouched whenever the function leaves its argument alone *)
+Lemma call_x_untouched (f : wfun (A:=A) (I:=I)) x T a c :
+  (forall w, f_apply f (xval x) T a = Ok w -> w_x w = xval x) ->
+  call f x T a = Ok c -> c_x c = xval x.
+Proof.
+  unfold call. intros Hf. destruct (f_apply f (xval x) T a) as [w|e]; simpl; intros H; inversion H; subst.
+  simpl. destruct x; simpl; auto.
+Qed.
+
+(* object level *)
+Lemma obj_f_eq_call (o : gobj (A:=A) (I:=I)) x T g xa :
+  obj_call K o x T = Ok (g, xa) ->
+  match obj_f K o (xval x) T with
+  | Ok (FScalar v) => length g = length (xval x) /\ forall i, nth i g v = v
+  | Ok (FArray v) => g = v
+  | Err _ => False
+  end.
+Proof.
+  destruct o as [|f a]; simpl.
+  - intros H; inversion H; subst. unfold ideal_activity_call, ideal_f. split.
+    + apply repeat_length.
+    + intros i. revert i. induction (length (xval x)); intros [|i]; simpl; auto.
+  - unfold call. destruct (f_apply f (xval x) T a) as [w|e]; simpl; intros H; inversion H; subst. reflexivity.
+Qed.
+
+Lemma new_obj_kind (f : wfun (A:=A) (I:=I)) a :
+  ((length (a_index a) <= 1)%nat -> new_obj f a = ObjIdeal) /\
+  ((1 < length (a_index a))%nat -> new_obj f a = ObjGroup f a).
+Proof.
+  unfold new_obj. split; intros H.
+  - apply Nat.leb_le in H. rewrite H. reflexivity.
+  - apply Nat.leb_gt in H. rewrite H. reflexivity.
+Qed.
+
+End Generic.
